@@ -26,6 +26,11 @@ def crit(line):
 EXACT_STREAM_KINDS = {
     "C04": {"merkle.verify"},
     "C03": {"merkle.verify"},   # "hashes into the Merkle root at the claimed position" (C04_exact) is a clause of C03
+    # what the genesis validation of the locking parameters admits is pinned exactly (C11P.validate_bounds / validate_complete):
+    # admitting anything else (a negative or >= 1 slash fraction, a window of 0 ...) voids the bounds the conservation and
+    # punishment theorems rest on
+    "C11": {"lock.validateparams"}, "C13": {"lock.validateparams"}, "C14": {"lock.validateparams"}, "C15": {"lock.validateparams"},
+    "C12": {"lock.validateparams"},
 }
 
 
